@@ -133,7 +133,11 @@ void eb_norm_sim(eb_t *r, const eb_t *t, int n) {
 			fb_copy(r[i]->y, t[i]->y);
 			if (!eb_is_infty(t[i])) {
 				fb_copy(r[i]->z, a[i]);
+			} else {
+				fb_copy(r[i]->z, t[i]->z);
 			}
+			/* The result may be a separate array, take the system from the input. */
+			r[i]->coord = t[i]->coord;
 		}
 #if EB_ADD == PROJC || !defined(STRIP)
 		for (int i = 0; i < n; i++) {
